@@ -43,6 +43,9 @@ func hangLimit() time.Duration {
 			return time.Duration(n) * time.Second
 		}
 	}
+	if report.Tier() == "thorough" { // 16 shards (some under the race detector) share the machine: a large case may legitimately take longer
+		return 30 * time.Second
+	}
 	return 10 * time.Second
 }
 
